@@ -149,8 +149,8 @@
  *                byte k flipped; both followed by the server cookie)
  *        from=<addr[:port]> (UDP source address; default the socket's peer)
  *        on=s<k> (deliver on another socket)  dup=<n> (n copies)  trunc=<n> (cut to n bytes)
- *      <rrs> = RR+RR+..., RR = TYPE:rdata[:ttl][@owner]   (ttl default 300, owner default
- *      the question name).  A:<ip4>  AAAA:[<ip6>] (unbracketed only with a ttl)  NS|CNAME|
+ *      <rrs> = RR+RR+..., RR = TYPE:rdata[:ttl][@owner][@@class]   (ttl default 300, owner default
+ *      the question name, class default IN; @@CH, @@HS, @@NONE, @@<number>).  A:<ip4>  AAAA:[<ip6>] (unbracketed only with a ttl)  NS|CNAME|
  *      PTR:<name>  TXT:<text>|=<hex>  MX:<pref>:<name>  SRV:<prio>:<weight>:<port>:<target>
  *      SOA:<minimum> or SOA:<mname>:<rname>:<serial>:<refresh>:<retry>:<expire>:<minimum>
  *      HINFO:<cpu>:<os>  CAA:<crit>:<tag>:<value>  URI:<prio>:<weight>:<target>
